@@ -138,6 +138,8 @@ class Writer(BaseWriter):
         if first or middle:
             s += ', '
             s += join([first, middle])
+        if person._keeps_empty_first_part():
+            s += ','
         return s
 
     def _write_persons(self, stream, persons, role):
